@@ -95,7 +95,14 @@ func ModeFromString(mode string) (SortMode, error) {
 	return -1, fmt.Errorf("invalid sort mode: %v", mode)
 }
 
-func getFilename(segkey string, cname string, sortMode SortMode) string {
+// The column name comes from ingested events and from requests, and it becomes
+// the name of a file in the directory of the segment, so it must be a simple
+// file name.
+func getFilename(segkey string, cname string, sortMode SortMode) (string, error) {
+	if !utils.IsSimpleFileName(cname) {
+		return "", fmt.Errorf("getFilename: column name %q cannot be used as a file name", cname)
+	}
+
 	suffix := ""
 	switch sortMode {
 	case SortAsAuto:
@@ -106,17 +113,16 @@ func getFilename(segkey string, cname string, sortMode SortMode) string {
 		suffix = "_str"
 	}
 
-	return filepath.Join(segkey, cname+suffix+".srt") // srt means "sort", not an acronym
-}
-
-func getTempFilename(segkey string, cname string, sortMode SortMode) string {
-	return getFilename(segkey, cname, sortMode) + ".tmp"
+	return filepath.Join(segkey, cname+suffix+".srt"), nil // srt means "sort", not an acronym
 }
 
 func Exists(segkey string, cname string, sortMode SortMode) bool {
-	filename := getFilename(segkey, cname, sortMode)
+	filename, err := getFilename(segkey, cname, sortMode)
+	if err != nil {
+		return false
+	}
 
-	_, err := os.Stat(filename)
+	_, err = os.Stat(filename)
 	return err == nil
 }
 
@@ -233,16 +239,18 @@ func writeSortIndex(segkey string, cname string, sortMode SortMode,
 		return fmt.Errorf("writeSortIndex: invalid sort mode: %v", sortMode)
 	}
 
-	filename := getFilename(segkey, cname, sortMode)
-
-	dir := filepath.Dir(filename)
-	err := os.MkdirAll(dir, 0755)
+	finalName, err := getFilename(segkey, cname, sortMode)
 	if err != nil {
 		return err
 	}
 
-	finalName := getFilename(segkey, cname, sortMode)
-	tmpFileName := getTempFilename(segkey, cname, sortMode)
+	dir := filepath.Dir(finalName)
+	err = os.MkdirAll(dir, 0755)
+	if err != nil {
+		return err
+	}
+
+	tmpFileName := finalName + ".tmp"
 
 	file, err := os.Create(tmpFileName)
 	if err != nil {
@@ -412,7 +420,10 @@ func ReadSortIndex(segkey string, cname string, sortMode SortMode, reverse bool,
 		return nil, nil, fmt.Errorf("ReadSortIndex: invalid sort mode: %v", sortMode)
 	}
 
-	filename := getFilename(segkey, cname, sortMode)
+	filename, err := getFilename(segkey, cname, sortMode)
+	if err != nil {
+		return nil, nil, err
+	}
 	file, err := os.Open(filename)
 	if err != nil {
 		return nil, nil, err
@@ -682,6 +693,9 @@ func SetSortColumns(indexName string, columnNames []string) error {
 	for _, col := range columnNames {
 		if col == "" {
 			return fmt.Errorf("SetSortColumns: column names must be non-empty strings")
+		}
+		if !utils.IsSimpleFileName(col) {
+			return fmt.Errorf("SetSortColumns: column name %q cannot be used for a sort index", col)
 		}
 	}
 
